@@ -11,7 +11,8 @@ class ConcreteProvider:
     symbolic = False
     np = np
 
-    def __init__(self, inputs=None, seed=0, record_values=False):
+    def __init__(self, inputs=None, seed=0, record_values=False, tight=False):
+        self.tight = tight
         self.given = dict(inputs or {})
         self.inputs = {}
         self.rng = random.Random(seed)
@@ -136,7 +137,7 @@ class ConcreteProvider:
     def _flat(self, x):
         return np.array(x, dtype=float).reshape(-1)
 
-    def check_eq(self, name, lhs, rhs, tol=1e-8, deriv=False):
+    def check_eq(self, name, lhs, rhs, tol=1e-8, deriv=False, exact=False):
         name = self._uniq(name)
         self.n_checks += 1
         if self.assume_failed:
@@ -158,8 +159,20 @@ class ConcreteProvider:
             self.values[name] = [l.tolist(), r.tolist()]
         if deriv:
             tol = max(tol, self.deriv_tol)
-        scale = 1.0 + max(np.max(np.abs(l), initial=0.0), np.max(np.abs(r), initial=0.0))
-        bad = ~(np.abs(l - r) <= tol * scale)
+        if exact:
+            # the two sides must be the same double (round trips through text, plain copies)
+            bad = ~(l == r)
+            scale, tol = 1.0, 0.0
+        elif self.tight and not deriv:
+            # replay of a solver counterexample: relative comparison with a tiny absolute floor, so that violations far
+            # below 1e-8 in absolute size (tiny information entries, tiny errors) still reproduce
+            lim = 1e-9 * np.maximum(np.abs(l), np.abs(r)) + 1e-13
+            bad = ~(np.abs(l - r) <= lim)
+            scale = 1.0
+            tol = float(np.max(lim)) if lim.size else 0.0
+        else:
+            scale = 1.0 + max(np.max(np.abs(l), initial=0.0), np.max(np.abs(r), initial=0.0))
+            bad = ~(np.abs(l - r) <= tol * scale)
         if bad.any():
             i = int(np.argmax(bad))
             self.failures.append({"name": name, "msg": "entry %d: %r != %r (tol %g)" % (i, float(l[i]), float(r[i]), tol * scale)})
